@@ -95,10 +95,21 @@ def success_case(asm, acc, case):
             args += ['--hex-offset', case['hex']]
         if case['defs']:
             args.append('--include-definitions')
-        # stale files that must be replaced
+        # stale files that must be replaced: junk, or - for the binary - an older build that starts with / equals / is a prefix of
+        # the new program (an "unchanged, skip the write" shortcut must still leave exactly the new program)
+        stale_kind = ['junk', 'longer', 'same', 'shorter', 'junk-long'][case['idx'] % 5]
         for p in (outp, labp, outp + '.hex'):
             if p:
                 open(p, 'wb').write(b'STALE')
+        if stale_kind == 'longer':
+            open(outp, 'wb').write(ref.out + b'\x13\x00\x00\x00TAIL')
+        elif stale_kind == 'same':
+            open(outp, 'wb').write(ref.out)
+        elif stale_kind == 'shorter':
+            open(outp, 'wb').write(ref.out[:max(0, len(ref.out) - 3)])
+        elif stale_kind == 'junk-long':
+            open(outp, 'wb').write(b'\xa5' * (len(ref.out) + 64))
+        core.see(acc, 'stale_output_kinds', stale_kind)
         r = cli.run_cli(args, cwd)
         acc['ctr']['success_runs'] += 1
         acc['ntkeys'].add(core.ckey('s', tuple(sorted((k, str(v)) for k, v in case.items()))))
